@@ -19,7 +19,7 @@ LEVEL_NOTE = ("In-process stack + the DBOS SQLite lifecycle lock as a component 
               "through the real DBOS runtime cannot run here (dbos package absent). A multi-lock-object thread stress on one SQLite file is reported as information only.")
 DESIGN_REF = "§5 C26"
 RULE = "case = (program, idle_timeout, send/restart schedule, yield seed) or (lifecycle script); distinct = hash of the scenario; non-trivial = >=1 release and >=1 send at/after it"
-REQUIRED_REACH = ["scenario", "release_snapshot_eval", "send_at_release_instant", "concurrent_senders", "restart_scenario", "conservation_eval", "lifecycle_script",
+REQUIRED_REACH = ["scenario", "release_snapshot_eval", "send_at_release_instant", "concurrent_senders", "restart_scenario", "conservation_eval", "slow_store", "lifecycle_script", "lifecycle_stalled_releaser",
                   "lifecycle_released_period", "lifecycle_crash_timeout_takeover"]
 ASSUMPTIONS = ["an event whose send_event call raised is not counted as sent (the caller was told)"]
 
@@ -36,7 +36,8 @@ def gen_case(seed):
     rnd = random.Random(seed)
     spec, keys = ic.gen_program(rnd, n=rnd.randint(2, 3))
     spec["sched_seed"] = seed
-    return {"seed": seed, "spec": spec, "keys": keys, "I": rnd.choice([0.5, 1, 2]), "offsets": [rnd.choice([-0.001, 0, 0, 0.001, 0.25]) for _ in keys],
+    return {"seed": seed, "spec": spec, "keys": keys, "I": rnd.choice([0.5, 1, 2]), "offsets": [rnd.choice([-0.2, -0.05, -0.001, 0, 0, 0.001, 0.25]) for _ in keys],
+            "store_latency": rnd.choice([None, None, 0.02, 0.1, 0.3]),
             "concurrent": rnd.random() < 0.5, "dup": rnd.random() < 0.3, "yield_seed": rnd.choice([None, seed]), "restart": rnd.random() < 0.35,
             "restart_off": rnd.choice([-0.25, 0.0, 0.001, 0.3]), "store": "sqlite"}
 
@@ -45,7 +46,7 @@ def run_inproc(case, acc):
     from vf import idle_cases as ic
 
     wit = {"case": case}
-    t_idle = ic.idle_instant(case["spec"])
+    t_idle = ic.idle_instant(case["spec"], case.get("store_latency"))
     if t_idle is None:
         acc.inconclusive.append(f"reference run never became idle seed={case['seed']}")
         return
@@ -63,7 +64,10 @@ def run_inproc(case, acc):
     if case["restart"]:
         restarts = [max(0.1, sends[-1]["at"] + case["restart_off"])] if case["restart_off"] < 0 else [max(0.1, sends[0]["at"] - case["restart_off"])]
         # after a restart every not yet delivered answer is (re)sent shortly after start()
-    scn = {"spec": case["spec"], "idle_timeout": I, "sends": sends, "restarts": restarts, "yield_seed": case["yield_seed"], "store": "sqlite", "end": 300.0}
+    scn = {"spec": case["spec"], "idle_timeout": I, "sends": sends, "restarts": restarts, "yield_seed": case["yield_seed"], "store": "sqlite", "end": 300.0,
+           "store_latency": case.get("store_latency")}
+    if case.get("store_latency"):
+        acc.hit("slow_store")
     obs, cs = ic.run_scenario(scn)
     acc.case()
     acc.hit("scenario")
@@ -160,9 +164,10 @@ def run_lifecycle(seed, acc):
             ok = await lock.begin_release("r")
             log.append(("begin_release", vclock.vnow(), ok, state()))
             if ok and not crash:
-                await asyncio.sleep(rnd.choice([0, 0.1, 0.5]))
+                stall = rnd.choice([0, 0.1, 0.5, 0.5, 3.0, 8.0])  # may exceed the crash timeout: a resumer takes over meanwhile
+                await asyncio.sleep(stall)
                 await lock.complete_release("r")
-                log.append(("complete_release", vclock.vnow(), None, state()))
+                log.append(("complete_release", vclock.vnow(), stall, state()))
 
         async def resumer(delay, i):
             await asyncio.sleep(delay)
@@ -208,6 +213,8 @@ def run_lifecycle(seed, acc):
                 if st == "releasing":
                     st = "released"
                     released_periods += 1
+                else:
+                    acc.hit("lifecycle_stalled_releaser")  # late completion after a takeover: must change nothing
             elif op == "try_begin_resume":
                 res = e[2]
                 if res == "released":
